@@ -766,8 +766,43 @@ func numberStringer(x any) (s string) {
 	return
 }
 
+/*
+predeclaredTypes maps the kind of a string, Boolean or number
+to the predeclared type of that kind.
+*/
+var predeclaredTypes = map[reflect.Kind]reflect.Type{
+	reflect.String: typOf(``), reflect.Bool: typOf(false),
+	reflect.Int: typOf(int(0)), reflect.Int8: typOf(int8(0)), reflect.Int16: typOf(int16(0)),
+	reflect.Int32: typOf(int32(0)), reflect.Int64: typOf(int64(0)),
+	reflect.Uint: typOf(uint(0)), reflect.Uint8: typOf(uint8(0)), reflect.Uint16: typOf(uint16(0)),
+	reflect.Uint32: typOf(uint32(0)), reflect.Uint64: typOf(uint64(0)),
+	reflect.Float32: typOf(float32(0)), reflect.Float64: typOf(float64(0)),
+	reflect.Complex64: typOf(complex64(0)), reflect.Complex128: typOf(complex128(0)),
+}
+
+/*
+underlyingPrimitive returns x itself if it is a Go primitive, or
+the equivalent value of the predeclared type if x is of a defined
+type whose underlying type is a primitive (type Attr string, type
+Level int), alongside a Boolean value indicative of either case.
+*/
+func underlyingPrimitive(x any) (p any, is bool) {
+	if p, is = x, isKnownPrimitive(x); !is && x != nil {
+		v := valOf(x)
+		var t reflect.Type
+		if t, is = predeclaredTypes[v.Kind()]; is {
+			p = v.Convert(t).Interface()
+		}
+	}
+
+	return
+}
+
 func primitiveStringer(x any) (s string) {
 	s = `unsupported_primitive_type`
+	if p, is := underlyingPrimitive(x); is {
+		x = p
+	}
 	if isKnownPrimitive(x) {
 		switch {
 		case isBoolPrimitive(x):
